@@ -34,8 +34,19 @@ import (
 
 // apd.Decimal to other
 
+// Largest positive base-10 exponent for which a whole-number decimal is
+// converted to a big.Float exactly (each exponent step costs ~3.3 bits of
+// precision in the result).
+const MaxExactBigFloatBase10Exponent = 10000
+
 func BigDecimalFloatToBigFloat(value *apd.Decimal) (*big.Float, error) {
-	return StringToBigFloat(value.Text('g'), int(value.NumDigits()))
+	significantDigits := int(value.NumDigits())
+	if value.Form == apd.Finite && value.Exponent > 0 && value.Exponent <= MaxExactBigFloatBase10Exponent {
+		// A whole number: the zeros implied by the exponent are digits of
+		// the value too. Without them 1E+2 would get 4 bits and become 96.
+		significantDigits += int(value.Exponent)
+	}
+	return StringToBigFloat(value.Text('g'), significantDigits)
 }
 
 func BigDecimalFloatToBigInt(value *apd.Decimal, maxBase10Exponent int) (*big.Int, error) {
